@@ -586,16 +586,31 @@ func wgReplay(args []string) error {
 				obs.OpPerm = append(obs.OpPerm, wgOpPerm{Desc: op.desc, RelRows: relRows(o), BaseRows: relRows(base), Result: o.Result, Base: base.Result})
 			}
 		}
-		if *conc > 0 {
+		sharedChanged := false
+		for round := 0; *conc > 0 && round < 3; round++ {
+			// the goroutines of a round share ONE model value whose type definitions are not in sorted order (rounds 1, 2: reversed,
+			// rotated; a fresh value per round: whoever sorts in place leaves it sorted); odd goroutines build private copies
+			shared := proto.Clone(model).(*openfgav1.AuthorizationModel)
+			if n := len(shared.TypeDefinitions); round > 0 && n > 1 {
+				tds := append([]*openfgav1.TypeDefinition{}, shared.TypeDefinitions...)
+				for i := range tds {
+					if round == 1 {
+						shared.TypeDefinitions[i] = tds[n-1-i]
+					} else {
+						shared.TypeDefinitions[i] = tds[(i+n/2)%n]
+					}
+				}
+			}
+			sharedBefore := proto.Clone(shared).(*openfgav1.AuthorizationModel)
 			var wg sync.WaitGroup
 			res := make([]*wgOutcome, *conc)
 			for i := 0; i < *conc; i++ {
 				wg.Add(1)
 				go func(i int) {
 					defer wg.Done()
-					m := model // shared, read-only
+					m := shared // shared, read-only
 					if i%2 == 1 {
-						m = proto.Clone(model).(*openfgav1.AuthorizationModel)
+						m = proto.Clone(sharedBefore).(*openfgav1.AuthorizationModel)
 					}
 					var g *graph.WeightedAuthorizationModelGraph
 					var err error
@@ -614,14 +629,18 @@ func wgReplay(args []string) error {
 			}
 			wg.Wait()
 			seenC := map[string]bool{}
+			for _, o := range obs.Conc {
+				seenC[o.key] = true
+			}
 			for _, o := range res {
 				if !seenC[o.key] {
 					seenC[o.key] = true
 					obs.Conc = append(obs.Conc, o)
 				}
 			}
+			sharedChanged = sharedChanged || !proto.Equal(sharedBefore, shared)
 		}
-		obs.ModelUnchanged = proto.Equal(before, model)
+		obs.ModelUnchanged = proto.Equal(before, model) && !sharedChanged
 		after := sliceIdentity(model)
 		if len(after) != len(beforeSlice) {
 			obs.ModelUnchanged = false
